@@ -2,10 +2,10 @@
 package c01
 
 import (
-	"errors"
 	"bytes"
 	"crypto/ecdh"
 	"crypto/rand"
+	"errors"
 	"fmt"
 	"sort"
 	"strings"
@@ -57,6 +57,8 @@ type recipe struct {
 	BundleID string `json:"bundle_id_field,omitempty"`
 	// TokenRemovalFails: the storage refuses to remove the token record during this request
 	TokenRemovalFails bool `json:"storage_fails_to_remove_token_record,omitempty"`
+	// SkipStorage: the application handles this request with WithSkipStorage(true)
+	SkipStorage bool `json:"handled_with_skip_storage,omitempty"`
 }
 
 func pubOf(priv []byte) []byte {
@@ -550,6 +552,11 @@ func TestProp_Enrollment(t *testing.T) {
 				qualifies := false
 				oneOff := false
 				either := false
+				// now and then the application handles the request with WithSkipStorage (it
+				// manages the node record itself): nothing new is stored - so the
+				// store-once back end has nothing to refuse - but a token that yields
+				// credentials is spent all the same
+				skipDraw := rapid.IntRange(0, 5).Draw(t, "callerSkipsStorage") == 0
 				switch {
 				case r.Wrapped != "none" || r.Rewrap != "none":
 					r.Path = "(c) registration info"
@@ -561,14 +568,14 @@ func TestProp_Enrollment(t *testing.T) {
 						qualifies = wrappedValid
 						oneOff = !qualifies && r.Wrapped != "garbage"
 					}
-					if qualifies && backend == vkit.StoreOnce && existing != nil && w.SW != nil {
+					if qualifies && backend == vkit.StoreOnce && existing != nil && w.SW != nil && !skipDraw {
 						// Library quirk, outside this property: on a duplicate-record error
 						// the existing record is re-loaded WITHOUT the storage wrapper and
 						// the call fails. Either outcome leaves the (keep-first) storage
 						// unchanged, so the case is observed, not judged.
 						either = true
 					}
-					if qualifies && backend == vkit.StoreOnce && existing != nil {
+					if qualifies && backend == vkit.StoreOnce && existing != nil && !skipDraw {
 						// the store-once back end keeps the first record: the request then has
 						// to match it like in (a)
 						qualifies = bytes.Equal(existing.nonce, nonce) && bytes.Equal(existing.encPub, encPub)
@@ -610,10 +617,16 @@ func TestProp_Enrollment(t *testing.T) {
 					}
 					r.TokenRemovalFails = true
 				}
+				skipStorage := skipDraw && !removalFails
+				fetchOpts := append(serverOpts(), nodeenrollment.WithMaximumServerLedActivationTokenLifetime(maxLife))
+				if skipStorage {
+					fetchOpts = append(fetchOpts, nodeenrollment.WithSkipStorage(true))
+					r.SkipStorage = true
+				}
 				var resp *types.FetchNodeCredentialsResponse
 				var err error
 				pv, stack := vkit.Guard(func() {
-					resp, err = registration.FetchNodeCredentials(w.Ctx, w.Store, req, append(serverOpts(), nodeenrollment.WithMaximumServerLedActivationTokenLifetime(maxLife))...)
+					resp, err = registration.FetchNodeCredentials(w.Ctx, w.Store, req, fetchOpts...)
 				})
 				w.Rec.Fault = nil
 				if pv != nil {
@@ -676,6 +689,13 @@ func TestProp_Enrollment(t *testing.T) {
 						}
 					}
 					// model update
+					if skipStorage && r.Path != "(a) stored record" {
+						rec.Count("credentials_issued_with_skip_storage", 1)
+						if d := vkit.DiffSnap(before, nodeSnap()); d != "" {
+							vkit.Violate(t, prop, "C01/skip-storage-changed-node-records", "a request handled with WithSkipStorage changed node records: "+d, detail)
+						}
+						return
+					}
 					switch r.Path {
 					case "(b) activation token":
 						model[r.Cert] = &record{nonce: nonce, encPub: encPub}
